@@ -21,6 +21,7 @@ class Scenario:
         # (self.sources[i] is what it holds when the copy runs - the facts are computed from that)
         self.src_prep = {}; self.src_initial = {}; self.aux = {}
         self.stocktake = False      # a validity scan between the requests, on the same context (moves the target's file offset)
+        self.between = {}           # round -> what the client does after that response: "scan" | "copy" | "clear" | "none"
 
     def write_files(self, keep_target=False):
         if not keep_target:
@@ -36,7 +37,7 @@ class Scenario:
         return "snapshot 0 %s" % p
 
     def script(self):
-        h = self.h
+        h = self.h; self._ncopy = len(self.spaths)
         first = min(MIN_DL, len(self.B))
         p1 = max(25, h.lead_size)
         L = ["case %s %d" % (self.cid, self.budget)] + self.pre
@@ -57,8 +58,12 @@ class Scenario:
         for r in range(nr):
             L.append("fetch 0 0 %s %d %d %s %s" % (self.bpath, self.limit, self.frag, self.fetch_opts, self.round_opts.get(r, "")))
             L.append(self.snap("round%d" % r))
-            if self.stocktake:
+            if self.stocktake or self.between.get(r) == "scan":
                 L.append("find_valid 0")
+            elif self.between.get(r) == "copy" and self.spaths:
+                L += ["copy_chunks 1 0", self.snap("copy%d" % self._ncopy)]; self._ncopy += 1
+            elif self.between.get(r) == "clear":
+                L.append("clear_error 0")
             L.append("reset_failed 0")
         if self.final:
             L += ["truncate_to_length 0 0", "validate_data 0", self.snap("final")]
@@ -157,7 +162,8 @@ def enrich(sc, ce):
             out.append({"op": "rescan" if scanned else "scan", "vec": e["valid"], "disk": d, "sized": sized, "ret": e["ret"]}); valid = e["valid"]; scanned = True
         elif op == "copy_chunks" and e.get("c", 0) == 0:
             after = rd("copy%d" % copy_i)
-            src = sc.sources[copy_i]; sp = sc.spaths[copy_i]
+            si = min(max(e.get("src", copy_i + 1) - 1, 0), len(sc.sources) - 1)        # (a source may be used again later in the session)
+            src = sc.sources[si]; sp = sc.spaths[si]
             m, u = source_match(h, src)
             if not opened.get(e.get("src"), True):
                 m = [False] * n; u = [False] * n          # the library refused to open this source: nothing may be used from it
@@ -165,7 +171,7 @@ def enrich(sc, ce):
             touched = [c for c in range(n) if valid[c] != 1 and m[c]]
             same = open(sp, "rb").read() == src
             out.append({"op": "copy", "vec": e["valid"], "disk": d, "zero": z, "matchable": m, "usable": u, "srcSame": same,
-                        "outside": outside_same(cur, after, h, touched), "src": copy_i})
+                        "outside": outside_same(cur, after, h, touched), "src": si})
             cur = after; valid = e["valid"]; copy_i += 1
         elif op == "reset_failed":
             out.append({"op": "resetfailed", "vec": e["valid"]}); valid = e["valid"]
@@ -181,7 +187,8 @@ def enrich(sc, ce):
             opts = sc.fetch_opts + " " + sc.round_opts.get(round_i, "")
             pok = [True] * len(X)
             if "corrupt=" in opts:
-                cb = int(opts.split("corrupt=")[1].split()[0]); acc = 0
+                cbs = opts.split("corrupt=")[1].split()[0]
+                cb = int(cbs) if cbs != "last" else sum(int(x["clen"]) for x in e["ridx"]) - 1; acc = 0
                 for k, x in enumerate(e["ridx"]):
                     L = int(x["clen"])
                     if acc <= cb < acc + L:
